@@ -72,8 +72,11 @@ CHECKS["C06"] = {
             "construct closes exactly the labels it marked, so a successful walk leaves the current block as the only open one, C06_walk_leaves_one_open_block, and the "
             "final pass closes it). The third clause at the level of return statements, for any code: when resolve_return_type gives the body a type, every return carries a "
             "value assignable to it -- a value body has no bare `return`, a void body returns no value (C06_every_return_fits_the_return_type, "
-            "C06_value_body_has_no_bare_return). The general theorem that every accepted program passes the whole checker (C06_builder_ok_full: also that no REACHABLE "
-            "block ends in the unreachable marker, and define-before-use) is stated but not proved. Two genuine defects found by this "
+            "C06_value_body_has_no_bare_return). The second half of the second clause for ALL programs: a block ending in the unreachable marker is not the entry and no block jumps to it, so no path "
+            "from the entry ends in the marker (C06_unreachable_marker_is_isolated, C06_no_path_ends_in_the_unreachable_marker: the translator never writes the marker, "
+            "the final pass isolates every block it marks). With the above: every path from the entry runs through blocks that end in a jump to an existing block or in a "
+            "return that fits the return type. What remains per program (cfg_ok evaluated on every program of a run; C06_builder_ok_full stated, not proved): "
+            "define-before-use of temporaries. Two genuine defects found by this "
             "check were repaired by fix: commits (F2/F14, F18).",
     "technique": "Coq soundness proof of a CFG/dataflow checker + per-program evaluation of the verified checker on the real IR (translation validation) + differential execution model/code",
     "design_ref": "5 C06",
